@@ -368,7 +368,7 @@ func GetAcsUrlAndBindingForResponse(
 	if acsUrl == "" {
 		isDefaultFound := false
 		for _, acs := range acs {
-			if acs.IsDefault == "true" {
+			if acs.IsDefault == "true" || acs.IsDefault == "1" {
 				isDefaultFound = true
 				acsUrl = acs.Location
 				protocolBinding = acs.Binding
